@@ -632,7 +632,7 @@ def run_property(module, tier: str, seed: int, only: list[str] | None = None) ->
     extra = getattr(module, "evidence_extra", None)
     if extra:
         ev["coverage"].update(extra(total, per_sub))
-    if only is None:
+    if only is None and not os.environ.get("VERIF_NO_EVIDENCE"):
         os.makedirs(os.path.join(VERIF, "evidence"), exist_ok=True)
         with open(os.path.join(VERIF, "evidence", f"{prop}.json"), "w") as f:
             json.dump(ev, f, indent=1, default=_default)
